@@ -70,6 +70,22 @@ def kernels_targets():
     return T
 
 
+def kernelsx_targets():
+    """The weight kernels once more, over XR (reals + NaN / +-inf with the IEEE rules): what happens to rows equal to -inf."""
+    s_self = lambda: {"log_likelihood": V("ll"), "log_prior": V("lp"), "log_q": V("lq"), "x": var("x", "XV")}
+    s_in = [("x", "XV"), ("ll", "V"), ("lp", "V"), ("lq", "V")]
+    T = []
+    T.append(dict(name="xlogsumexp", module="utils", func="logsumexp", inputs=[("x", "V")],
+                  params={"x": V("x"), "axis": NoneV()}, outputs={"": "return"},
+                  register=("logsumexp", ["x"], [("", "S")], "xlogsumexp")))
+    T.append(dict(name="xeffective_sample_size", module="utils", func="effective_sample_size",
+                  inputs=[("log_w", "V")], params={"log_w": V("log_w")}, outputs={"": "return"}))
+    T.append(dict(name="xcompute_weights", module="samples", cls="Samples", func="compute_weights", inputs=s_in,
+                  self=s_self(), params={},
+                  outputs={"log_w": "self.log_w", "log_evidence": "self.log_evidence", "ess": "self.effective_sample_size"}))
+    return T
+
+
 CALLS_HEADER = XHEADER + """
 Section Calls.
   Context {X Z : Type}.
@@ -409,8 +425,10 @@ def run_targets(tr, targets, table, status, irall, meta):
             irall.update(ir)
             meta[name] = {"guards": ex.guards, "assumed": ex.assumed, "events": ex.events}
             if spec.get("register"):
-                fn, params, outsig = spec["register"]
+                fn, params, outsig = spec["register"][:3]
                 tr.gen_funcs[fn] = {"params": params, "outs": outsig}
+                if len(spec["register"]) > 3:          # the Coq name differs from the Python name (second numeric domain)
+                    tr.gen_funcs[fn]["coq"] = spec["register"][3]
             status[name] = (True, "")
         except Untranslatable as e:
             status[name] = (False, f"Untranslatable: {e}")
@@ -438,6 +456,12 @@ def build(tr, status):
     files["Flows.v"] = FLOWS_HEADER + "\n" + body5 + "\nEnd Flows.\n"
     files["Routing.v"] = routing_file(tr, status)
     files["Composite.v"] = composite_file(tr, status)
+    ir6, meta6 = {}, {}
+    saved = dict(tr.gen_funcs)            # the XR registration of logsumexp must not leak into the other files
+    body6 = run_targets(tr, kernelsx_targets(), XTABLE, status, ir6, meta6)
+    tr.gen_funcs = saved
+    files["KernelsX.v"] = XHEADER + "\n" + body6
+    files["kernelsx_ir.json"] = json.dumps({"ir": ir6, "meta": meta6}, indent=0, default=str)
     ir2, meta2 = {}, {}
     body2 = run_calls(tr, calls_targets(), status, ir2, meta2)
     files["Calls.v"] = CALLS_HEADER + "\n" + body2 + "\nEnd Calls.\n"
